@@ -41,6 +41,14 @@ CLAIMED = {
        'model and with the generator\'s own field list.',
   ref='6/C20', technique='Lean 4 proof (regex-boundary lemma by induction over header lines) + differential correspondence vs real Envelope',
   note='Partial: the email package is trusted on the well-formed domain (validated by the campaign), not verified.'),
+ 'C16': dict(
+  text='Lean theorems over Model/Policy.lean (Queue._run_policies with its identity-based remove/extend bookkeeping, split / domain split / '
+       'forward / header policies, Envelope.copy): for every chain (any order/repetition, incl. a policy returning its input among its outputs), '
+       'every recipient list and all regex/domain oracles: output recipient positions are a permutation of the input\'s (each exactly once), '
+       'sender and body are conserved, all outputs are distinct objects, an unmatched recipient is unchanged, Date/Message-Id added only when '
+       'absent, Received first. Proved by an invariant over the recursion (unbounded chains and lists). Tied to the code by an exhaustive campaign '
+       'over all chains <= 3 (quick) / 4 (thorough) x recipient lists against the real policies, with aliasing probed on the real objects.',
+  ref='6/C16', technique='Lean 4 proof (invariant over the policy recursion, counting argument) + differential correspondence vs real Queue._run_policies'),
 }
 def main():
     props = [json.loads(l) for l in open(os.path.join(V, 'properties.jsonl'))]
